@@ -179,6 +179,13 @@ def run(repo='/repo', tier='quick'):
         byval = any(('htp_validate_hostname(%s)' % hn, '==', '0') in [x for x, e in P.facts_at(g, b)] for b, a in sites)
         if fname != 'htp_tx_state_request_line':
             res.check(byinv, 'C11.h', '%s:%s:syntax' % (fname, flag), 'raised when the host:port syntax is invalid', '%s is no longer raised under the parser\'s invalid indication' % flag, g.loc)
+        if fname == 'htp_tx_state_request_line':
+            # ... whoever supplied parsed_uri (the parser or, in hybrid mode, the application): the validating call is not inside the
+            # arm that builds parsed_uri
+            vb = [b for b, i, c in g.calls('htp_validate_hostname')]
+            dep = any(a[0].endswith('parsed_uri') and a[2] == '0' for b in vb for a, e in P.facts_at(g, b))
+            res.check(bool(vb) and not dep, 'C11.h', '%s:%s:for-supplied-uri-too' % (fname, flag), 'the validation does not depend on who built parsed_uri',
+                      'the request-target host is validated only when the library built parsed_uri itself: a URI supplied with htp_tx_req_set_parsed_uri() is never checked and %s is not raised for it' % flag, g.loc)
         res.check(byval, 'C11.h', '%s:%s:validation' % (fname, flag), 'raised when htp_validate_hostname() rejects the name', '%s is no longer raised when htp_validate_hostname(%s) == 0' % (flag, hn), g.loc)
         # the validation result must be tested whenever a hostname exists
     # ---- response arm
